@@ -99,14 +99,17 @@ theorem upaStep_err_pair (e : Nat) (cp : List Nat) (pe : Nat) (pp : List Nat) (a
     all_goals simp at h
     all_goals exact .inr h.symm
 
-/-- a UPA error (either message) of `check_model` names two different visited particles for which
+/-- a UPA error (either message) of `check_model` names two visited particles — two different objects
+    unless the shared-group repair is in the tree, where one object can sit at two places — for which
     `is_overlap` is true and `is_consistent` is true -/
 theorem checkModel_upa_pair (p : Particle) (pe e : Nat)
     (h : (M.checkModel p).err = some (.upa pe e) ∨ (M.checkModel p).err = some (.sameGroup pe e)) :
-    pe ∈ (M.visited p).map (·.1) ∧ e ∈ (M.visited p).map (·.1) ∧ pe ≠ e ∧ M.overlap pe e = true ∧
+    pe ∈ (M.visited p).map (·.1) ∧ e ∈ (M.visited p).map (·.1) ∧ (M.fx.shared = false → pe ≠ e) ∧
+      M.overlap pe e = true ∧
       M.consistent e pe = true := by
   have key : ∀ err, (M.checkModel p).err = some err → (err = .upa pe e ∨ err = .sameGroup pe e) →
-      pe ∈ (M.visited p).map (·.1) ∧ e ∈ (M.visited p).map (·.1) ∧ pe ≠ e ∧ M.overlap pe e = true ∧
+      pe ∈ (M.visited p).map (·.1) ∧ e ∈ (M.visited p).map (·.1) ∧ (M.fx.shared = false → pe ≠ e) ∧
+      M.overlap pe e = true ∧
         M.consistent e pe = true := by
     intro err herr hk
     obtain ⟨e', cp, en, hm, hl, hp⟩ := outer_err_mem M (M.visited p) [] {} [] _ (fun en hen => nomatch hen) herr
@@ -123,7 +126,8 @@ theorem checkModel_upa_pair (p : Particle) (pe e : Nat)
         have hids : en.leaf = pe ∧ e' = e := by
           rcases hpair with rfl | rfl <;> rcases hk with hk | hk <;> cases hk <;> exact ⟨rfl, rfl⟩
         obtain ⟨rfl, rfl⟩ := hids
-        simp only [Bool.or_eq_true, beq_iff_eq, Bool.not_eq_true', not_or, Bool.not_eq_false] at hov
+        simp only [Bool.or_eq_true, Bool.and_eq_true, Bool.not_eq_true', not_or, Bool.not_eq_false, beq_iff_eq,
+          not_and] at hov
         exact ⟨by simpa using hl, List.mem_map.mpr ⟨_, hm, rfl⟩, hov.1, hov.2, by simpa using hc⟩
   rcases h with h | h
   · exact key _ h (.inl rfl)
